@@ -38,6 +38,16 @@ def jobs(tier, asan):
     return js
 
 
+def sys_jobs(hs, tier):
+    q = tier == "quick"
+    sj = [wmmlib.sys_job(hs, "sys", 0, 2, "l1,R0"), wmmlib.sys_job(hs, "sys", 0, 2, "l1,l2,R0"), wmmlib.sys_job(hs, "sys", 0, 1, "l1,B0,c0,l2"),
+          wmmlib.sys_job(hs, "sys", 0, 2, "l1,B0,c0,l2,B1"), wmmlib.sys_job(hs, "sys", 0, 2, "R0", "l1,R0"), wmmlib.sys_job(hs, "sys", 0, 3, "R0", "R0"), wmmlib.sys_job(hs, "sys", 0, 2, "l1,B0,x0")]
+    if not q:
+        sj += [wmmlib.sys_job(hs, "sys", 1, 1, "l1,B0", "l1", deadline=1500), wmmlib.sys_job(hs, "sys", 1, 2, "l1,R0", "l1,R0", deadline=1500),
+               wmmlib.sys_job(hs, "sys", 0, 3, "l1,B0,c0,l2,B1,c0,l3", deadline=1500), wmmlib.sys_job(hs, "sys", 1, 1, "B0", "l1,B0", deadline=1500)]
+    return sj
+
+
 def run(ctx):
     ctx.rule = ("all schedules up to the preemption bound of two threads x up to 7 operations from {log A, log B, remove_logger(A), "
                 "remove_logger_blocking(A), create_or_get_logger(A, other sinks), remove_logger(B), get_logger, get_sink / "
@@ -58,12 +68,7 @@ def run(ctx):
     # re-creation under the same name against real backend polls (clean-up of invalidated loggers included), at every atomic
     # operation of either side
     hs = wmmlib.build_sys()
-    q = ctx.tier == "quick"
-    sj = [wmmlib.sys_job(hs, "sys", 0, 2, "l1,R0"), wmmlib.sys_job(hs, "sys", 0, 2, "l1,l2,R0"), wmmlib.sys_job(hs, "sys", 0, 1, "l1,B0,c0,l2"),
-          wmmlib.sys_job(hs, "sys", 0, 2, "l1,B0,c0,l2,B1"), wmmlib.sys_job(hs, "sys", 0, 2, "R0", "l1,R0"), wmmlib.sys_job(hs, "sys", 0, 3, "R0", "R0"), wmmlib.sys_job(hs, "sys", 0, 2, "l1,B0,x0")]
-    if not q:
-        sj += [wmmlib.sys_job(hs, "sys", 1, 1, "l1,B0", "l1", deadline=1500), wmmlib.sys_job(hs, "sys", 1, 2, "l1,R0", "l1,R0", deadline=1500),
-               wmmlib.sys_job(hs, "sys", 0, 3, "l1,B0,c0,l2,B1,c0,l3", deadline=1500), wmmlib.sys_job(hs, "sys", 1, 1, "B0", "l1,B0", deadline=1500)]
+    sj = sys_jobs(hs, ctx.tier)
     wmmlib.run_sys(ctx, sj)
     ctx.rule += ("; whole-system exploration at atomic-operation granularity (Engine A): log / remove_logger / remove_logger_blocking / re-create "
                  "of one or two threads against real backend polls: statements at the sink of the logger generation they were logged through, each sink "
